@@ -9,7 +9,7 @@ use crate::progcheck::{self, fnv, Judge, JR};
 use crate::realrun::{self, CompileOutcome, RunCfg};
 use cvx_core::engine::{Check, CheckInfo, ChunkResult, Tier, Violation};
 use cvx_core::gen_basic::{CfgLite, Family};
-use cvx_core::gen_c04::{FCyclic, FExhaust, FKinds, FNames, FOddKeys, FShape};
+use cvx_core::gen_c04::{FCyclic, FExhaust, FKinds, FManyUpvalues, FNames, FOddKeys, FSelfRef, FShape};
 use cvx_core::ir::Module;
 use cvx_core::refsem;
 use cvx_core::region::{self, RegionOpts};
@@ -103,7 +103,7 @@ fn loader_pass(m: &Module) -> Result<&'static str, JR> {
 static QUICK: OnceLock<Vec<Box<dyn Family>>> = OnceLock::new();
 static THOROUGH: OnceLock<Vec<Box<dyn Family>>> = OnceLock::new();
 
-fn families(tier: Tier) -> &'static Vec<Box<dyn Family>> {
+pub fn families(tier: Tier) -> &'static Vec<Box<dyn Family>> {
     use cvx_core::gen_basic::{FExpr, FNest, FStmt};
     use cvx_core::gen_more::{FArray, FCall, FLimits};
     match tier {
@@ -115,6 +115,8 @@ fn families(tier: Tier) -> &'static Vec<Box<dyn Family>> {
                 Box::new(FExhaust { thorough: false }),
                 Box::new(FCyclic),
                 Box::new(FOddKeys),
+                Box::new(FSelfRef),
+                Box::new(FManyUpvalues),
                 Box::new(FExpr::new()),
                 Box::new(FStmt::new(1)),
                 Box::new(FStmt::new(2)),
@@ -132,6 +134,8 @@ fn families(tier: Tier) -> &'static Vec<Box<dyn Family>> {
                 Box::new(FExhaust { thorough: true }),
                 Box::new(FCyclic),
                 Box::new(FOddKeys),
+                Box::new(FSelfRef),
+                Box::new(FManyUpvalues),
                 Box::new(FExpr::new()),
                 Box::new(FStmt::new(1)),
                 Box::new(FStmt::new(2)),
